@@ -781,6 +781,7 @@ qb_loop_signal_del(qb_loop_t * lp, qb_loop_signal_handle handle)
 	struct qb_loop *l = lp;
 	struct qb_loop_item *item;
 	struct qb_loop_item *next_item;
+	int32_t p;
 
 	if (l == NULL) {
 		l = qb_loop_default_get();
@@ -790,33 +791,40 @@ qb_loop_signal_del(qb_loop_t * lp, qb_loop_signal_handle handle)
 	}
 	s = (struct qb_signal_source *)l->signal_source;
 
-	qb_list_for_each_entry(item, &l->level[sig->p].wait_head, list) {
-		if (item->type != QB_LOOP_SIG) {
-			continue;
-		}
-		sig_clone = (struct qb_loop_sig *)item;
-		if (sig_clone->cloned_from == sig) {
-			qb_util_log(LOG_TRACE, "deleting sig in WAITLIST");
-			qb_list_del(&sig_clone->item.list);
-			free(sig_clone);
-			break;
-		}
-	}
-
 	/*
-	 * Several deliveries of the signal can be queued at once,
-	 * and none of them must run (or look at sig) after this.
+	 * Deliveries are queued at the priority the handler had when the
+	 * signal arrived; qb_loop_signal_mod() may have changed it since,
+	 * so look at every level.
 	 */
-	qb_list_for_each_entry_safe(item, next_item,
-				    &l->level[sig->p].job_head, list) {
-		if (item->type != QB_LOOP_SIG) {
-			continue;
+	for (p = QB_LOOP_LOW; p <= QB_LOOP_HIGH; p++) {
+		qb_list_for_each_entry(item, &l->level[p].wait_head, list) {
+			if (item->type != QB_LOOP_SIG) {
+				continue;
+			}
+			sig_clone = (struct qb_loop_sig *)item;
+			if (sig_clone->cloned_from == sig) {
+				qb_util_log(LOG_TRACE, "deleting sig in WAITLIST");
+				qb_list_del(&sig_clone->item.list);
+				free(sig_clone);
+				break;
+			}
 		}
-		sig_clone = (struct qb_loop_sig *)item;
-		if (sig_clone->cloned_from == sig) {
-			qb_loop_level_item_del(&l->level[sig->p], item);
-			qb_util_log(LOG_TRACE, "deleting sig in JOBLIST");
-			free(sig_clone);
+
+		/*
+		 * Several deliveries of the signal can be queued at once,
+		 * and none of them must run (or look at sig) after this.
+		 */
+		qb_list_for_each_entry_safe(item, next_item,
+					    &l->level[p].job_head, list) {
+			if (item->type != QB_LOOP_SIG) {
+				continue;
+			}
+			sig_clone = (struct qb_loop_sig *)item;
+			if (sig_clone->cloned_from == sig) {
+				qb_loop_level_item_del(&l->level[p], item);
+				qb_util_log(LOG_TRACE, "deleting sig in JOBLIST");
+				free(sig_clone);
+			}
 		}
 	}
 
